@@ -122,7 +122,7 @@ func TestBounded_C10(t *testing.T) {
 	bStat("C10.exhaustive_states", total)
 	seeds := 40
 	if bTier() == "thorough" {
-		seeds = 400
+		seeds = bScale(400)
 	}
 	for seed := 1; seed <= seeds; seed++ {
 		r := &bRand{uint64(seed)*0xA24BAED4963EE407 + 3}
